@@ -13,6 +13,7 @@ mod c19;
 mod c20;
 mod drive;
 mod he;
+mod keys;
 mod project;
 mod psets;
 mod sched;
@@ -73,6 +74,8 @@ fn main() {
         }
         // hcv he-drive <config.json> <seed> <programs> <length>
         "he-drive" => drive::main(&args[2..]),
+        // hcv keys <pset> [generators]: key material as RLWE samples
+        "keys" => keys::main(&args[2..]),
         "c07" => c07::main(&args[2..]),
         "c08" => c08::main(&args[2..]),
         "c17" => c17::main(&args[2..]),
